@@ -42,8 +42,11 @@ package controllerref
 //@   om-writes [C04,C02] owners
 //@   writes [C04,C17] obj
 //@   ensures [C04,C02] changed
-//@   ensures [C04,C02] exists j int :: 0 <= j && j < ownerLen(obj) && ownerAt(obj, j) == *controllerRef
-//@   ensures [C04] forall j int :: 0 <= j && j < ownerLen(obj) ==> ownerAt(obj, j) == *controllerRef || (exists i int :: 0 <= i && i < old(ownerLen(obj)) && old(ownerAt(obj, i)) == ownerAt(obj, j))
+//@   // positional form (no existential): every old reference stays in place unless it carries our UID, in which
+//@   // case it is replaced by the controller reference; if none carried it, the controller reference is appended
+//@   ensures [C04,C02] forall j int :: 0 <= j && j < old(ownerLen(obj)) ==> ownerAt(obj, j) == ite(old(ownerAt(obj, j)).UID == (*controllerRef).UID, *controllerRef, old(ownerAt(obj, j)))
+//@   ensures [C04,C02] ownerLen(obj) == old(ownerLen(obj)) || (ownerLen(obj) == old(ownerLen(obj)) + 1 && ownerAt(obj, old(ownerLen(obj))) == *controllerRef)
+//@   ensures [C04,C02] ownerLen(obj) == old(ownerLen(obj)) ==> (exists i int :: 0 <= i && i < old(ownerLen(obj)) && old(ownerAt(obj, i)).UID == (*controllerRef).UID)
 
 //@ func UnstructuredManager.releaseChild(m, obj) (err)
 //@   requires m != nil && obj != nil && validClient(m.client) && m.Controller != nil && ref(m.Controller) != 0
